@@ -409,6 +409,9 @@ func (fx *FuncExec) runBody() {
 		}
 	}
 	fx.entry = st.Clone()
+	if fx.V.covers && fx.fc != nil && len(fx.fc.Requires) > 0 {
+		fx.cover(st, "the preconditions are satisfiable", fx.fn.Pos())
+	}
 	fx.edgeOut = map[[2]int]incoming{}
 	all := map[*ssa.BasicBlock]bool{}
 	for _, b := range fx.rpo {
@@ -539,6 +542,9 @@ func (fx *FuncExec) loopHead(li *loopInfo, pre *State) *State {
 		for _, inv := range li.spec.Invariants {
 			fx.assume(st, fx.evalBool(env, inv))
 		}
+	}
+	if fx.V.covers && li.spec != nil && len(li.spec.Invariants) > 0 {
+		fx.cover(st, "loop "+li.name+": the invariant is satisfiable at the loop head", pos)
 	}
 	li.old = st.Clone()
 	st.labels["loop"+li.name] = li.old
@@ -1648,4 +1654,21 @@ func (fx *FuncExec) staticCallOrdinals() {
 			fx.callOrdStatic[in] = i + 1
 		}
 	}
+}
+
+// cover: a reachability query (expected SAT): an unsatisfiable one means a contradictory
+// precondition or invariant, i.e. everything behind it would be proved vacuously.
+func (fx *FuncExec) cover(st *State, desc string, pos token.Pos) {
+	if fx.discard > 0 {
+		return
+	}
+	fx.counts["cover"]++
+	ob := &Obligation{Kind: "cover", Func: fx.relName(), Desc: desc, Cover: true, prefix: len(fx.em.lines), pc: st.pc, goal: "false"}
+	ob.Name = fmt.Sprintf("%s#cover:%d", fx.relName(), fx.counts["cover"])
+	if pos != token.NoPos {
+		p := fx.V.prog.Fset.Position(pos)
+		ob.Pos = fmt.Sprintf("%s:%d", strings.TrimPrefix(p.Filename, "/repo/"), p.Line)
+	}
+	ob.Model = map[string]string{}
+	fx.obls = append(fx.obls, ob)
 }
